@@ -6,6 +6,7 @@ import (
 	"fmt"
 	"go/ast"
 	"go/constant"
+	"go/token"
 	"go/types"
 	"sort"
 	"strings"
@@ -229,4 +230,12 @@ func constOf(o types.Object) (int64, bool) {
 	}
 	i, ok := constant.Int64Val(v)
 	return i, ok
+}
+
+// incDecNode is prog.IncDecOf for an arbitrary node met during an ast.Inspect walk.
+func incDecNode(info *types.Info, n ast.Node) (ast.Expr, token.Token, bool) {
+	if s, ok := n.(ast.Stmt); ok {
+		return prog.IncDecOf(info, s)
+	}
+	return nil, token.ILLEGAL, false
 }
